@@ -472,6 +472,7 @@ static Plan trng_baseline_plan(uint64_t idx) {
     p.seed = idx; p.arena_seed = mix2(idx, 1) | 1; p.paint_seed = mix2(idx, 2) | 1;
     p.os_stale_errno = (idx & 1); p.os_scribble = (idx & 2) != 0; p.fd_base = (int)(idx % 5);
     p.os_echo = (idx % 3) == 0; p.sleep_interrupt = (idx % 2) == 0; p.clock_step_ns = (idx % 4 == 0) ? 0 : (idx % 4 == 1) ? 1000000ULL : (idx % 4 == 2) ? 1000000000ULL : 60000000000ULL;
+    p.clock_jump_s = (idx % 5 == 0) ? 86400LL * 3650 : (idx % 5 == 1) ? -3600 : (idx % 5 == 2) ? 301 : 0;
     return p;
 }
 
@@ -527,6 +528,7 @@ Plan generate_plan(const std::string &engine, int armed, uint64_t seed, bool tho
     p.os_echo = r.chance(1, 4);
     p.sleep_interrupt = r.chance(1, 2);
     { static const uint64_t STEP[] = {0, 1000ULL, 1000000ULL, 1000000000ULL, 60000000000ULL}; p.clock_step_ns = STEP[r.below(5)]; }
+    if (r.chance(1, 4)) { static const int64_t J[] = {301, 3600, 86400LL * 3650, -3600, -86400LL * 365, 1LL << 31}; p.clock_jump_s = J[r.below(6)]; }
     p.fd_base = r.chance(1, 3) ? (int)r.below(3) : 3 + (int)r.below(60);   // open() may hand out 0, 1 or 2 when stdio is closed
     if (engine == "mix") p.alloc_fail = r.chance(1, 10);
     for (int ti = 0; ti < ntasks; ti++) {
@@ -573,6 +575,8 @@ Plan generate_plan(const std::string &engine, int armed, uint64_t seed, bool tho
                 if ((o.kind == H_UPDATE || o.kind == M_UPDATE) && o.a > 300) o.a = o.a % 300;
                 if (o.kind == M_ONESHOT && o.b > 300) o.b = o.b % 300;
             }
+            // one op in sixteen on a stateful object finds it at a new address (decided by the data seed: no extra draw)
+            if (o.kind >= H_INIT && o.kind <= P_DIRTY && o.kind != X_CLEAN && ((o.dseed >> 13) & 15) == 0) o.flags |= F_MOVED;
             tp.ops.push_back(o);
         }
         p.tasks.push_back(tp);
